@@ -5,6 +5,7 @@ import (
 	"math"
 	"os"
 	"path/filepath"
+	"runtime/debug"
 	"strings"
 
 	"verif/core"
@@ -417,6 +418,11 @@ func c04Repeated() core.Space {
 			path := filepath.Join(dir, "t."+t.ext)
 			os.WriteFile(path, []byte(t.text), 0o644)
 			first := ""
+			// no garbage collection during the loop: a file that is opened and never closed is otherwise
+			// closed by its finalizer sooner or later, and whether the descriptors run out (workers allow
+			// 2048) would depend on when the collector happens to run
+			oldGC := debug.SetGCPercent(-1)
+			defer debug.SetGCPercent(oldGC)
 			for r := 0; r < rounds; r++ {
 				c.Eval()
 				obs := ""
